@@ -214,6 +214,58 @@ def run(tier, seed):
             ob["replay_path"] = path
             ob["replay"] = {"path": path, "outcome": "model-only", "message": "publish / remove history before the snapshot"}
     obligations.append(ob)
+    # the table component behind the user manager
+    from . import c01table
+    ob = c01table.run(tier, seed)
+    if ob.get("verdict") == "violation":
+        from lib import native
+        path = native.write_replay("C01", "c01", "model", [], {"engine": "smt", "mode": "model-only", "obligation": ob["harness"], "message": ob["message"], "model": ob.get("counterexample")})
+        ob["replay_path"] = path
+        ob["replay"] = {"path": path, "outcome": "model-only", "message": "set / remove / drop history of the user table before the snapshot"}
+    obligations.append(ob)
+    # the naming component's own snapshot records: persistent instances
+    from . import c01naming
+    from .common import concretize
+    ob = c01naming.run(tier, seed)
+    ok_paths, rng = ob.pop("_ok_paths", []), ob.pop("_rng", [])
+    if ob.get("verdict") == "violation" and (ob.get("counterexample") or {}).get("ops") and native_ok:
+        rr = native_scenarios("C01", "violation", ["naming_snapshot_history"], ob["message"], {"obligation": ob["harness"], "model": ob.get("counterexample"), "ops": ob["counterexample"]["ops"]})
+        ob["replay_path"] = rr["path"]
+        ob["replay"] = {"path": rr["path"], "outcome": rr["outcome"], "message": rr["message"]}
+        if rr["outcome"] != "reproduced":
+            ob.update({"verdict": "inconclusive", "message": "engine-S counterexample (%s) did not reproduce on a real NamingActor (%s %s)" % (ob["message"], rr["outcome"], rr["message"])})
+        else:
+            ob["message"] = "%s [real NamingActor through a real snapshot file: %s]" % (ob["message"], rr["message"][:300])
+    elif ob.get("verdict") == "violation":
+        from lib import native
+        path = native.write_replay("C01", "c01", "model", [], {"engine": "smt", "mode": "model-only", "obligation": ob["harness"], "message": ob["message"], "model": ob.get("counterexample")})
+        ob["replay_path"] = path
+        ob["replay"] = {"path": path, "outcome": "model-only", "message": "naming requests before the snapshot"}
+    elif ob.get("verdict") == "discharged" and native_ok:
+        import random
+        rnd = random.Random(seed)
+        rnd.shuffle(ok_paths)
+        s_ = z3.Solver()
+        s_.add(*rng)
+        bad = None
+        n_val = 0
+        for pc, ops in ok_paths[:6]:
+            s_.push()
+            s_.add(*pc)
+            if s_.check() == z3.sat:
+                cops = concretize(ops, s_.model())
+                if all(isinstance(o.get("weight", 0.0), float) for o in cops):
+                    nv = native_scenarios("C01", "validate", ["naming_snapshot_history"], "", {"ops": cops})
+                    n_val += 1
+                    if nv["outcome"] != "passed":
+                        bad = nv
+            s_.pop()
+            if bad:
+                break
+        info["translator_validation_naming_snapshot"] = {"outcome": "passed" if not bad else bad["outcome"], "histories": n_val, "message": "" if not bad else bad["message"]}
+        if bad or not n_val:
+            ob.update({"verdict": "inconclusive", "message": "the obligation is discharged but a real NamingActor breaks it on a sampled history: %s" % (bad or {}).get("message", "no history sampled")})
+    obligations.append(ob)
     info["wall_s"] = round(time.time() - t0, 1)
     return {"obligations": obligations, "info": info}
 
